@@ -701,7 +701,7 @@ def stream_skeleton(ctx, acc, docs):
             acc.count("K_tree_not_compared:" + xdoc[0])
         reqs.append((715, out))
         plan.append(("parse", inp, rp, out, None))
-        if rng.random() < 0.15:
+        if rng.random() < 0.10:
             for label, text in damaged_variants(out):
                 reqs.append((715, text))
                 plan.append(("damaged", inp, rp, text, label))
